@@ -276,5 +276,5 @@ def run(tier, rep):
         kres.pop("inconclusive", None) if kres.get("skip_reason") else None
         rep.merge_worker(kres)
     rep.coverage["sanitizer_reports"] = sum(1 for s, _ in rep.violations if s.startswith("sanitizer"))
-    rep.assumptions += ["the helper/map semantics are those documented in bpf-helpers(7)/linux/bpf.h; verifier acceptance, struct sock_common offsets against a running kernel and the attach points are out of reach (no kprobes in this kernel)",
+    rep.assumptions += ["model section: the helper/map semantics are those documented in bpf-helpers(7)/linux/bpf.h. kernel section: both programs are loaded through the running kernel's verifier and connect4 runs attached to a private cgroup; the kprobe program cannot be ATTACHED (no kprobes in this kernel), so its struct sock_common reads against a live socket are exercised only in the model",
                         "a thread is inside one connect() at a time (it cannot start another connect between its two hook points)"]
